@@ -67,6 +67,10 @@ pub fn text(c: &Case) -> String {
         }
         "component" => module("M", "AUTOMATIC", false, &format!("S ::= SEQUENCE {{ {n} BOOLEAN }}")),
         "alternative" => module("M", "AUTOMATIC", false, &format!("C ::= CHOICE {{ {n} BOOLEAN }}")),
+        // the type of the component / alternative is a selection type: the name stays the component's own, whatever the
+        // selected alternative is called
+        "component-sel" => module("M", "AUTOMATIC", false, &format!("Sh ::= CHOICE {{ circle-r INTEGER, q NULL }}\nS ::= SEQUENCE {{ {n} circle-r < Sh }}")),
+        "alternative-sel" => module("M", "AUTOMATIC", false, &format!("Sh ::= CHOICE {{ circle-r INTEGER, q NULL }}\nC ::= CHOICE {{ {n} circle-r < Sh }}")),
         // the name becomes part of the name of a type: a component / alternative with an anonymous constructed type
         "component-anon" => module("M", "AUTOMATIC", false, &format!("S ::= SEQUENCE {{ {n} SEQUENCE {{ a BOOLEAN }} }}")),
         "alternative-anon" => module("M", "AUTOMATIC", false, &format!("C ::= CHOICE {{ {n} SEQUENCE {{ a BOOLEAN }} }}")),
@@ -224,6 +228,11 @@ impl Prop for C16 {
                 out.push(Case { role: r.into(), name: n.to_string(), other: None, ts: false });
             }
         }
+        for n in ["my-radius", "r", "type", "a-b", "circleR", "q"] {
+            for r in ["component-sel", "alternative-sel"] {
+                out.push(Case { role: r.into(), name: n.to_string(), other: None, ts: false });
+            }
+        }
         for n in ["Anonymous-A", "AnonymousA", "Inner-A", "InnerA", "Ext-Group-A", "R-Type", "RType", "R-A"] {
             for r in upper_roles {
                 out.push(Case { role: r.into(), name: n.to_string(), other: None, ts: false });
@@ -366,7 +375,7 @@ impl Prop for C16 {
                 _ => None,
             }
         };
-        match c.role.as_str() {
+        match c.role.trim_end_matches("-sel") {
             "module" => check_name("module", &c.name, &Found { rust: m.name.clone(), identifier: None, has_identifier: false }, &mut discs, &ctx),
             "type" | "typekind" => {
                 // the item that is not `User`
